@@ -287,3 +287,8 @@ Theorem C09_code_find_id_args_from_i : forall a (index : nat) r ds,
   py_find_id_args_from_i (Z.of_nat index) (zs a) ds = Some (zs r, ds).
 Proof. exact code_find_id_args_from_i. Qed.
 Print Assumptions C09_code_find_id_args_from_i.
+
+Theorem C09_code_get_levels_tree_from_i : forall a (origin : nat),
+  py_get_levels_tree_from_i (Z.of_nat origin) (zs a) = zs (levels a origin).
+Proof. exact code_get_levels_tree_from_i. Qed.
+Print Assumptions C09_code_get_levels_tree_from_i.
